@@ -1458,6 +1458,10 @@ func (d *Data) ServeHTTP(uuid dvid.UUID, ctx *datastore.VersionedCtx, w http.Res
 			server.BadRequest(w, r, fmt.Sprintf("Error reading batchsize query string: %v", err))
 			return
 		}
+		if batchsize <= 0 {
+			server.BadRequest(w, r, fmt.Sprintf("batchsize must be positive, not %d", batchsize))
+			return
+		}
 
 		var jsonBytes []byte
 		optimizedStr := queryStrings.Get("optimized")
